@@ -14,9 +14,10 @@ Clean(e) == /\ Chk(~e.raised /\ e.out = e.msg, "clean_llrs_decode_to_the_message
             /\ UNCHANGED cur
 
 \* Wagner: the returned message extends (by its parity bit) to a maximum-likelihood codeword of the single-parity-check code
+\* (a tie between several maximum-likelihood codewords is admissible: the returned message must re-encode to ONE of them; ties are counted)
 Wagner(e) == LET c == e.out \o << (Cardinality({ j \in 1..Len(e.out) : e.out[j] = 1 }) % 2) >>
                  u == MLUnique(e.y) IN
-             /\ Chk(~u \/ (~e.raised /\ Len(e.out) = Len(e.y) - 1 /\ Corr(c, e.y, 1) = MLScore(e.y)), "wagner_is_maximum_likelihood")
+             /\ Chk(~e.raised /\ Len(e.out) = Len(e.y) - 1 /\ Corr(c, e.y, 1) = MLScore(e.y), "wagner_is_maximum_likelihood")
              /\ (IF u THEN TRUE ELSE PrintT(<<"TIE", e.tid>>))
              /\ UNCHANGED cur
 
